@@ -203,7 +203,13 @@ TC11 == /\ Ev("c11cmp")
            IN Report(IF same THEN {} ELSE {"c11rel"}, [main |-> m, fresh |-> f])
         /\ UNCHANGED <<c, run, cmp, consumed, souts, obs, famid, famref, armed, held>>
 
-Next == TNew \/ TRead \/ TEnq \/ TWrite \/ TClear \/ TSetLimit \/ TPopAll \/ TEnd \/ TC11
+\* C11, relational, output: everything the connection had written when it reported the error is what a
+\* reference connection writes that was fed the same chunks cut off where the rejected request starts
+TC11Out == /\ Ev("c11out")
+           /\ Report(IF Rec[l].main = Rec[l].ref THEN {} ELSE {"c11rel"}, [main |-> Rec[l].main, ref |-> Rec[l].ref])
+           /\ UNCHANGED <<c, run, cmp, consumed, souts, obs, famid, famref, armed, held>>
+
+Next == TC11Out \/ TNew \/ TRead \/ TEnq \/ TWrite \/ TClear \/ TSetLimit \/ TPopAll \/ TEnd \/ TC11
 Spec == Init /\ [][Next]_vars
 
 \* every state of every validated trace satisfies the structural invariant of the machine
